@@ -19,13 +19,27 @@ FIELDS = ("nested_samples", "log_evidence", "log_posterior_weights", "likelihood
 
 
 # ------------------------------------------------------------------------------------------------ models
+# The caller's configuration OBJECTS, as a user script holds them: defined once at module level and handed to every run of
+# the process ("the same configuration").  A run that rewrites them in place changes what the next run is given.
+USER_REPARAMETERISATIONS = {"x": {"reparameterisation": "rescaletobounds", "update_bounds": True},
+                            "y": {"reparameterisation": "rescaletobounds"}}
+USER_FLOW_CONFIG = dict(n_blocks=2, n_neurons=4, n_layers=1)
+USER_TRAINING_CONFIG = dict(max_epochs=5, patience=5, batch_size=50)
+USER_INS_FLOW_CONFIG = dict(n_blocks=2, n_neurons=8, n_layers=1)
+USER_INS_TRAINING_CONFIG = dict(max_epochs=8, patience=5, batch_size=100)
+
+
 def make_model(kind="vec"):
     """2-d Gaussian-like likelihood built from exactly rounded operations only (products/sums, dyadic constants):
     evaluating a batch and evaluating point by point give the same bits.
-    kind: 'vec' (accepts batches), 'scalar' (raises on batches -> nessai's probe says 'not vectorised')."""
+    kind: 'vec' (accepts batches), 'scalar' (raises on batches -> nessai's probe says 'not vectorised'),
+    'vecr' ('vec' declaring its reparameterisations on the model, per parameter, the documented attribute)."""
     from nessai.model import Model
 
     class M(Model):
+        if kind == "vecr":
+            reparameterisations = USER_REPARAMETERISATIONS
+
         def __init__(self):
             self.names = ["x", "y"]
             self.bounds = {"x": [-4.0, 4.0], "y": [-4.0, 4.0]}
@@ -152,8 +166,9 @@ def run_config(cfg, model=None):
         if cfg["sampler"] == "ns":
             fs = FlowSampler(
                 model, nlive=cfg.get("nlive", 50), max_iteration=cfg.get("max_iteration", 200),
-                flow_config=dict(n_blocks=2, n_neurons=4, n_layers=1),
-                training_config=dict(max_epochs=cfg.get("max_epochs", 5), patience=5, batch_size=50),
+                flow_config=USER_FLOW_CONFIG,
+                training_config=USER_TRAINING_CONFIG if cfg.get("max_epochs") is None else
+                dict(max_epochs=cfg["max_epochs"], patience=5, batch_size=50),
                 training_frequency=cfg.get("training_frequency", 50), maximum_uninformed=cfg.get("maximum_uninformed", 50),
                 poolsize=cfg.get("poolsize", 100), cooldown=25, **common)
             fs.run(plot=False, save=False)
@@ -164,8 +179,7 @@ def run_config(cfg, model=None):
             import contextlib
             from harness import c03
             real = cfg.get("flows", "fake") == "real"
-            extra = dict(flow_config=dict(n_blocks=2, n_neurons=8, n_layers=1),
-                         training_config=dict(max_epochs=8, patience=5, batch_size=100)) if real else {}
+            extra = dict(flow_config=USER_INS_FLOW_CONFIG, training_config=USER_INS_TRAINING_CONFIG) if real else {}
             with (contextlib.nullcontext() if real else c03.FakeFlows(2, cfg.get("reparam", "logit") == "logit", None)):
                 fs = FlowSampler(
                     model, importance_nested_sampler=True, nlive=cfg.get("nlive", 100),
